@@ -28,6 +28,7 @@ func kernelsC13(thorough bool) ([]string, []layera.Kernel) {
 		{Name: "K5.structassign", Pkg: "builder", Harness: "VerifHarness_C05_StructAssign", Unwind: 32, MaxPaths: 3000000, Workers: 16},
 		{Name: "K9.tostring", Pkg: "builder", Harness: "VerifHarness_C13_ErrorToString", Unwind: 24, MaxPaths: 600000, SetInts: map[string]int{"VerifC13MaxPaths": maxPaths}},
 		{Name: "K9.methodstring", Pkg: "pkgload", Harness: "VerifHarness_C13_ParseMethodString", Unwind: 24},
+		{Name: "K9.getmatching", Pkg: "pkgload", Harness: "VerifHarness_C13_GetMatching", Unwind: 64, Stub: []string{"github.com/jmattheis/goverter/method.Parse"}, E2E: "c13"},
 		{Name: "K9.methodmap", Pkg: "config", Harness: "VerifHarness_C13_ParseMethodMap", Unwind: 24, Stub: stub},
 		{Name: "K9.settinglines", Pkg: "config", Harness: "VerifHarness_C13_SettingLines", Unwind: 64, Stub: stub},
 		{Name: "K9.namerloops", Pkg: "namer", Harness: "VerifHarness_C13_NamerLoops", Unwind: 200, LoopsBounded: true},
@@ -41,7 +42,7 @@ func runC13(opt *Options) int {
 		Opt:     opt,
 		Pkgs:    pkgs,
 		Kernels: ks,
-		Funcs:   []string{"xtype.TypeOf", "xtype.applyTo", "xtype.toCode", "xtype.toCodeBasic", "xtype.toCodeNamed", "xtype.toCodeObj", "xtype.toCodeStruct", "xtype.toCodeInterface", "xtype.toCodeSignature", "xtype.toChan", "xtype.ZeroValue", "xtype.(*Type).ID", "xtype.(*Type).Enum", "xtype.loadEnum", "enum.Detect", "namer.(*Namer).Index/Map/Name/Register (termination: <= 59 index, 5 map and 5 plain names per method)"},
+		Funcs:   []string{"xtype.TypeOf", "xtype.applyTo", "xtype.toCode", "xtype.toCodeBasic", "xtype.toCodeNamed", "xtype.toCodeObj", "xtype.toCodeStruct", "xtype.toCodeInterface", "xtype.toCodeSignature", "xtype.toChan", "xtype.ZeroValue", "xtype.(*Type).ID", "xtype.(*Type).Enum", "xtype.loadEnum", "enum.Detect", "pkgload.(*PackageLoader).GetMatching", "pkgload.ParseMethodString", "namer.(*Namer).Index/Map/Name/Register (termination: <= 59 index, 5 map and 5 plain names per method)"},
 		Bounds:  "self-referencing and mutually recursive named types over six constructors; all eleven outer type constructors (every basic kind incl. uintptr and unsafe.Pointer, the universe type error), named or unnamed, inner positions basic; go/types runs natively",
 		Assume: []string{
 			"jennifer (jen.*) is an opaque library: fresh results, no panics",
